@@ -11,6 +11,7 @@ SYSTEM_STAGE = {"C05": "exhaustively on small constants (quick: one 2.0 object, 
                 "C18": "exhaustively on small constants (quick: one 2.0 object, three handles; thorough: both objects, two markings)",
                 "C01": "on every simulated behaviour", "C07": "on every simulated behaviour", "C08": "on every simulated behaviour", "C11": "on every simulated behaviour",
                 "C12": "on every simulated behaviour"}
+SYSTEM_NOTE = " In the other direction a seeded random driver far outside the model's constants records every call (mutators, additions, reads) and Trace_Stix2System.tla re-computes each answer with the composition's operators; three corrupted lines must be rejected (binding self-test)."
 GEN7 = {
     "C01": "content of a custom type is met by the parser before the type is registered (stand-alone, bundle member, container member), then registered, then round-tripped.",
     "C02": "timestamp VALUES donated by objects of the other spec version (and of bundles) to constructors and new_version(modified=...): the receiving property's precision rules apply.",
@@ -28,6 +29,20 @@ GEN7 = {
     "C17": "the registry state includes what every registered class says about itself (property tables by name and identity); refused objects claiming several registered extensions.",
     "C18": "filters attached to a composite / environment / outer composite over one member holding several versions of an id in every storage order.",
     "C19": "one definition class registered for both spec versions (with and without an extension of its own, either order, derived class): both types keep the built-in guarantees.",
+}
+GEN8 = {
+    "C02": "the meta objects (language content, extension definition) are generated like every other type; key selector corruptions always run.",
+    "C03": "valid hosts carrying registered extensions of different kinds in every document order (host part judged by the frozen model, extension part by the registered definitions).",
+    "C04": "members named like the parser's own keywords (allow_custom, interoperability) next to custom content, on the object and on the enclosing bundle.",
+    "C05": "the meta objects in the type tables.",
+    "C06": "a contributing timestamp as text, datetime and as the timestamp value of other objects' properties: one identifier.",
+    "C07": "a third of the marking calls hand the marking over as a marking-definition object.",
+    "C08": "custom types with an extension of their own as hosts; hosts that arrive marked (found and repaired KF-C08-3).",
+    "C10": "grouping by operator precedence alone, at both levels.",
+    "C14": "content already built as a library object handed to parse() with every version argument.",
+    "C17": "2.0 network-traffic generated; stand-alone 2.0 observables with resolvable references; rules that only the other spec version has, broken through every entry.",
+    "C19": "property tables given as dictionaries the caller extends afterwards.",
+    "C20": "every ordered pair of arguments per conversion and descending / shuffled sweeps: answers do not depend on earlier calls.",
 }
 # property id -> (engine, technique, level text, level note, design ref)
 CHECKS = {
@@ -183,6 +198,8 @@ def build():
                          "error class is compared with the specification's; deviations are attributed to this property by the clause they break.")
             if pid in GEN7:
                 text += " Generation-7 strengthening: " + GEN7[pid]
+            if pid in GEN8:
+                text += " Generation-8 strengthening: " + GEN8[pid]
             checks.append({
                 "property_id": pid,
                 "quick_cmd": "./check %s --tier quick" % pid,
